@@ -23,7 +23,7 @@ def run(ctx):
             continue
         cases.append({'mode': 'record', 'torn': True, 'steps': h, **CONSTS})
     total_hist = len(cases)
-    budget = 1200 if tier == 'quick' else 12000
+    budget = 600 if tier == 'quick' else 12000
     chosen = vlib.sample_list(ctx.rng, cases, budget)
     ctx.exhaustive = (len(chosen) == total_hist)
     binary = ctx.go_build('dq')
@@ -41,7 +41,7 @@ def run(ctx):
         bcases.append({'mode': 'bytes', 'file': st['file'], 'appended': st['appended'], 'inflight': st['inflight'],
                        'infl': st['infl'], 'nadv': st['nadv'], 'modelOk': st['obs']['ok'],
                        'modelDelivered': st['obs']['delivered'], 'crashK': st['crashK']})
-    bbudget = 40000 if tier == 'quick' else 400000
+    bbudget = 15000 if tier == 'quick' else 400000
     bchosen = vlib.sample_list(ctx.rng, bcases, bbudget)
     res2, lines2 = ctx.replay(binary, bchosen, timeout=1500)
     ctx.absorb(res2, lines2)
